@@ -29,7 +29,7 @@ ASSUMPTIONS = ["Oracle 2 precondition (look-back still retained when a reading i
 
 def plan(tier):
     if tier == "thorough":
-        return {"shards": 16, "cases": 30000, "shard_timeout_s": 3000, "shard_budget_s": 1500}
+        return {"shards": 16, "cases": 80000, "shard_timeout_s": 3000, "shard_budget_s": 1500}
     return {"shards": 16, "cases": 2400, "shard_timeout_s": 600, "shard_budget_s": 100}
 
 
